@@ -2,6 +2,8 @@
 transport proxies installed from outside (no source change), and waits for
 logical completion (networking threads terminated) under a wall-clock watchdog
 whose firing means INCONCLUSIVE, never a verdict."""
+import socket
+import sys
 import threading
 import time
 
@@ -42,58 +44,83 @@ class EventLog(object):
         return [e for e in self.events if e[2] in kinds]
 
 
-class FileProxy(object):
-    """Wraps the connection's file object: logs reads, may force short reads,
-    counts reads that return b'' and stops a spinning reader."""
+class FileProxy(socket.SocketIO):
+    """The connection's unbuffered read stream, as a real `socket.SocketIO`
+    (what `socket.makefile('rb', 0)` returns) so that code which inspects the
+    type or uses `readinto`/`readable` behaves as it would uninstrumented:
+    logs reads, may force short reads, counts reads that return no data and
+    stops a spinning reader."""
 
-    def __init__(self, inner, log, rng=None, short_reads=False,
+    def __init__(self, sock, log, rng=None, short_reads=False,
                  spin_limit=50, gen=0):
-        self.inner, self.log, self.rng = inner, log, rng
+        socket.SocketIO.__init__(self, sock, 'rb')
+        sock._io_refs += 1                   # as socket.makefile() does
+        self.log, self.rng = log, rng
         self.gen = gen
         self.short_reads = short_reads
         self.empty_reads = 0
         self.reads = 0
         self.spin_limit = spin_limit
-        self.closed = False
+        self.vf_closed = False
         self.close_delay = 0
 
-    def read(self, n=None):
+    def _note(self, want, got):
         self.reads += 1
-        k = n
-        if self.short_reads and n and n > 1 and self.rng is not None:
-            k = self.rng.randrange(1, n + 1)
-        data = self.inner.read(k)
-        self.log.emit('io.read', want=n, got=len(data or b''), gen=self.gen)
-        if not data and n:
+        self.log.emit('io.read', want=want, got=got, gen=self.gen)
+        if not got and want:
             self.empty_reads += 1
             if self.empty_reads >= self.spin_limit:
                 self.log.emit('io.spin', empty_reads=self.empty_reads)
                 raise streams.SpinDetected(
                     '%d reads returned no data after end of stream'
                     % self.empty_reads)
+
+    def read(self, n=-1):
+        k = n
+        if self.short_reads and n and n > 1 and self.rng is not None:
+            k = self.rng.randrange(1, n + 1)
+        data = socket.SocketIO.read(self, k)
+        self._note(n, len(data or b''))
         return data
 
-    def fileno(self):
-        return self.inner.fileno()
+    def readinto(self, b):
+        # (RawIOBase.read() is implemented on top of readinto: count only
+        # calls made from outside)
+        if sys._getframe(1).f_code.co_name == 'read' and \
+                sys._getframe(1).f_locals.get('self') is self:
+            return socket.SocketIO.readinto(self, b)
+        view = memoryview(b)
+        if self.short_reads and len(view) > 1 and self.rng is not None:
+            view = view[:self.rng.randrange(1, len(view) + 1)]
+        n = socket.SocketIO.readinto(self, view)
+        self._note(len(b), n or 0)
+        return n
 
     def close(self):
-        self.closed = True
-        self.log.emit('io.fclose', gen=self.gen)
-        if self.close_delay:
-            # delay injection at an existing suspension point: disconnect()
-            # has shut the socket down and is about to close the stream
-            time.sleep(self.close_delay)
-        return self.inner.close()
+        if not self.vf_closed:
+            self.vf_closed = True
+            self.log.emit('io.fclose', gen=self.gen)
+            if self.close_delay:
+                # delay injection at an existing suspension point: disconnect()
+                # has shut the socket down and is about to close the stream
+                time.sleep(self.close_delay)
+        return socket.SocketIO.close(self)
 
 
-class SocketProxy(object):
-    """Wraps the connection's socket: logs every send with its bytes and the
-    calling thread; optionally yields between sends (the gap between a frame's
-    length prefix and its body becomes a pre-emption point)."""
+class SocketProxy(socket.socket):
+    """The connection's socket, as a real `socket.socket` that has taken over
+    the descriptor of the one `_connect()` created: logs every send with its
+    bytes and the calling thread; optionally yields between sends (the gap
+    between a frame's length prefix and its body becomes a pre-emption
+    point)."""
 
     def __init__(self, inner, log, rng=None, yield_prob=0.0, hook=None,
                  gen=0):
-        self.inner, self.log, self.rng = inner, log, rng
+        timeout = inner.gettimeout()
+        socket.socket.__init__(self, inner.family, inner.type, inner.proto,
+                               fileno=inner.detach())
+        self.settimeout(timeout)             # (keep whatever mode it was in)
+        self.log, self.rng = log, rng
         self.gen = gen
         self.yield_prob = yield_prob
         self.hook = hook
@@ -101,12 +128,12 @@ class SocketProxy(object):
         self.blocked_sends = 0
         self.short_sends = 0
 
-    def send(self, data):
+    def send(self, data, *flags):
         if self.hook:
             self.hook('send', self, data)
         self.log.emit('io.send', data=bytes(data), gen=self.gen)
         t0 = time.monotonic()
-        r = self.inner.send(data)
+        r = socket.socket.send(self, data, *flags)
         if time.monotonic() - t0 > 0.02:
             self.blocked_sends += 1       # the kernel made the caller wait
         if r is not None and r < len(data):
@@ -115,27 +142,19 @@ class SocketProxy(object):
             time.sleep(0.0003 if self.rng.random() < 0.3 else 0)
         return r
 
-    def recv(self, n):
-        return self.inner.recv(n)
-
-    def fileno(self):
-        return self.inner.fileno()
-
     def shutdown(self, *a, **k):
         if self.hook:
             self.hook('shutdown', self, b'')
         self.log.emit('io.shutdown', gen=self.gen)
-        return self.inner.shutdown(*a, **k)
+        return socket.socket.shutdown(self, *a, **k)
 
     def close(self):
-        self.closed = True
-        if self.hook:
-            self.hook('close', self, b'')
-        self.log.emit('io.close', gen=self.gen)
-        return self.inner.close()
-
-    def __getattr__(self, name):
-        return getattr(self.inner, name)
+        if not self.closed:
+            self.closed = True
+            if self.hook:
+                self.hook('close', self, b'')
+            self.log.emit('io.close', gen=self.gen)
+        return socket.socket.close(self)
 
 
 def monitored_connection_class():
@@ -182,12 +201,19 @@ def monitored_connection_class():
                                        self.vf_sndbuf)
             if log is not None and self.vf_wrap:
                 self.vf_generation = getattr(self, 'vf_generation', 0) + 1
-                self.file_object = FileProxy(
-                    self.file_object, log, self.vf_rng, self.vf_short_reads,
-                    gen=self.vf_generation)
+                # the instrumented socket takes over the descriptor; the read
+                # stream is re-made on it (nothing has been read yet)
+                old_file = self.file_object
                 self.socket = SocketProxy(
                     self.socket, log, self.vf_rng, self.vf_send_yield,
                     self.vf_send_hook, gen=self.vf_generation)
+                try:
+                    old_file.close()
+                except Exception:
+                    pass
+                self.file_object = FileProxy(
+                    self.socket, log, self.vf_rng, self.vf_short_reads,
+                    gen=self.vf_generation)
                 self.file_object.close_delay = self.vf_close_delay
                 self.vf_file_proxies = getattr(self, 'vf_file_proxies', [])
                 self.vf_file_proxies.append(self.file_object)
